@@ -329,6 +329,57 @@ func C03(run *mon.Run) {
 		}(si)
 	}
 	wg.Wait()
+	// entries the Go layer can settle without the C layer (nil / short / long signatures, identity keys)
+	// anywhere in the list, and a cancelling pair or triple in the LAST positions: whatever per-entry
+	// material (random coefficients, slots) is laid out by position must not run short at the tail
+	for n := 4; n <= run.Pick(12, 24); n++ {
+		for k := 2; k <= 3; k++ {
+			for ki, kind := range []string{"swapped-pair", "plus-minus-d", "three-way"} {
+				if kind == "three-way" && k < 3 {
+					continue
+				}
+				wg.Add(1)
+				sem <- struct{}{}
+				go func(n, k, ki int, kind string) {
+					defer wg.Done()
+					defer func() { <-sem }()
+					defer run.Protect("c03 worker")
+					r := run.Rand(fmt.Sprintf("premarked-%d-%d-%d", n, k, ki))
+					var tail []int
+					for i := n - k; i < n; i++ {
+						tail = append(tail, i)
+					}
+					if kind != "three-way" {
+						tail = tail[len(tail)-2:]
+					}
+					b, err := c03Build(r, n, tail, kind, h, hn)
+					if err != nil {
+						return
+					}
+					// k entries before the tail become trivially invalid
+					pre := r.Perm(n - k)[:min(k, n-k)]
+					for j, i := range pre {
+						switch (j + ki + n) % 4 {
+						case 0:
+							b.sigs[i] = nil
+						case 1:
+							b.sigs[i] = b.sigs[i][:47]
+						case 2:
+							b.pks[i] = crypto.IdentityBLSPublicKey()
+						default:
+							b.sigs[i] = append(append([]byte{}, b.sigs[i]...), 0)
+						}
+						b.built[i] = false
+					}
+					b.kind = "premarked-entries-and-cancelling-tail"
+					c03Check(run, b, fmt.Sprintf("%d trivially invalid entries at %v and a %s in the last positions %v of %d", len(pre), pre, kind, tail, n))
+					run.Shape(fmt.Sprintf("premarked|%d|%d|%s", n, k, kind))
+					run.Count("premarked.cases", 1)
+				}(n, k, ki, kind)
+			}
+		}
+	}
+	wg.Wait()
 	// two cancelling invalid entries at an exact index distance d (all other entries valid), for distances at
 	// the sizes an index or a coefficient table might wrap at: the pair must still be reported invalid
 	dists := []int{64, 128, 255, 256, 257}
